@@ -318,12 +318,14 @@ Inductive pr_op :=
 | OpScaled (k_max : nat)               (* is_scaled_realizable(k_max) *)
 | OpCert                               (* the [certificate] property *)
 | OpBuild                              (* build_petri_net_from_flow() *)
-| OpLoad (flow : list Z).              (* load_hypergraph_and_flow(vertices, edges, flow) *)
+| OpLoad (flow : list Z)               (* load_hypergraph_and_flow(vertices, edges, flow) *)
+| OpBorrow (max_borrow_each : nat).    (* is_borrow_realizable(max_borrow_each) *)
 
 Inductive pr_ans :=
 | AReal (v : verdict)
 | AScaled (k : option N)
 | ACert (c : option (list N))
+| ABorrow (b : option (list Z))        (* the borrow vector over sorted(vertices), or None *)
 | ADone
 | AErr.                                (* RuntimeError: Petri net not built *)
 
@@ -363,6 +365,57 @@ Fixpoint scaled_loop (V : list N) (E : list edge) (saved : list Z) (st : pr_stat
       end
   end.
 
+(** [is_borrow_realizable]: sorted(self.vertices), itertools.product(range(max_borrow_each + 1), repeat = #species)
+    (first coordinate slowest); every round rebuilds the net, adds the borrowed tokens to both markings, searches with
+    the default bounds and then puts the SAVED markings back (saved before the loop, after building if nothing was
+    built). *)
+Fixpoint ins_vertex (v : N) (l : list N) : list N :=
+  match l with
+  | [] => [v]
+  | x :: l' => if (v <? x)%N then v :: l else if (v =? x)%N then l else x :: ins_vertex v l'
+  end.
+Definition sorted_vertices (V : list N) : list N := fold_right ins_vertex [] V.
+
+Fixpoint borrow_vectors (mb : nat) (n : nat) : list (list Z) :=
+  match n with
+  | O => [[]]
+  | S n' => flat_map (fun v => map (cons (Z.of_nat v)) (borrow_vectors mb n')) (seq 0 (S mb))
+  end.
+
+Definition add_borrow (m : dict) (species : list N) (comb : list Z) : dict :=
+  fold_left (fun m sv => if (snd sv =? 0)%Z then m
+                         else set m (sp_place (fst sv)) (get m (sp_place (fst sv)) + snd sv)%Z)
+            (combine species comb) m.
+
+Fixpoint borrow_loop (V : list N) (E : list edge) (species : list N) (M0s MTs : dict) (st : pr_state)
+         (combs : list (list Z)) : pr_state * pr_ans :=
+  match combs with
+  | [] => (st, ABorrow None)
+  | comb :: combs' =>
+      let st1 := do_build V E st in
+      match pr_built st1 with
+      | None => (st1, AErr)                      (* unreachable: do_build always builds *)
+      | Some b1 =>
+          let b' := Built (b_net b1) (add_borrow (b_M0 b1) species comb) (add_borrow (b_MT b1) species comb) in
+          let v := bo_verdict (is_realizable b' DEFAULT_MAX_STATES DEFAULT_MAX_DEPTH) in
+          let st2 := PR (pr_flow st1) (Some (Built (b_net b1) M0s MTs))
+                        (match v with Found s => Some s | _ => None end) in
+          match v with
+          | Found _ => (st2, ABorrow (Some comb))
+          | _ => borrow_loop V E species M0s MTs st2 combs'
+          end
+      end
+  end.
+
+Definition do_borrow (V : list N) (E : list edge) (st : pr_state) (mb : nat) : pr_state * pr_ans :=
+  let st0 := match pr_built st with None => do_build V E st | Some _ => st end in
+  match pr_built st0 with
+  | None => (st0, AErr)
+  | Some b0 =>
+      let species := sorted_vertices V in
+      borrow_loop V E species (b_M0 b0) (b_MT b0) st0 (borrow_vectors mb (length species))
+  end.
+
 Definition pr_step (V : list N) (E : list edge) (st : pr_state) (op : pr_op) : pr_state * pr_ans :=
   match op with
   | OpReal ms md => do_real st ms md
@@ -370,6 +423,7 @@ Definition pr_step (V : list N) (E : list edge) (st : pr_state) (op : pr_op) : p
   | OpCert => (st, ACert (pr_cert st))
   | OpBuild => (do_build V E st, ADone)
   | OpLoad fl => (pr_loaded fl, ADone)
+  | OpBorrow mb => do_borrow V E st mb
   end.
 
 (** a history: the answers in call order, each with the object's state right after the call *)
@@ -446,6 +500,7 @@ Definition tans (a : pr_ans) : tok :=
                   match v with Found s => L [tlist tN s] | _ => L [] end]
   | AScaled k => L [I 2; match k with Some _ => I 1 | None => I 0 end; match k with Some k => tN k | None => I 0 end]
   | ACert c => L [I 3; tcert c]
+  | ABorrow b => L [I 6; match b with Some _ => I 1 | None => I 0 end; match b with Some c => L [tlist I c] | None => L [] end]
   | ADone => L [I 4]
   | AErr => L [I 9]
   end.
